@@ -714,6 +714,15 @@ func (t *tread) handle(cs *connState) message {
 	data := cs.readBufPool.Get().(*[]byte)
 	// Retain a reference to the full length of the buffer.
 	dataBuf := (*data)
+
+	// The reply (header, count, data) must fit in the negotiated message
+	// size, which is also the size of the buffer: shorten the read instead.
+	count := t.Count
+	if overhead := headerLength + (*rread)(nil).FixedSize(); uint32(len(dataBuf)) < overhead {
+		count = 0
+	} else if count > uint32(len(dataBuf))-overhead {
+		count = uint32(len(dataBuf)) - overhead
+	}
 	if err := ref.safelyRead(func() (err error) {
 		switch ref.pendingXattr.op {
 		case xattrNone:
@@ -727,7 +736,7 @@ func (t *tread) handle(cs *connState) message {
 				return linux.EPERM
 			}
 
-			n, err = ref.file.ReadAt(dataBuf[:t.Count], int64(t.Offset))
+			n, err = ref.file.ReadAt(dataBuf[:count], int64(t.Offset))
 			return err
 
 		case xattrWalk:
@@ -746,11 +755,11 @@ func (t *tread) handle(cs *connState) message {
 				return linux.EINVAL
 			}
 
-			if t.Offset+uint64(t.Count) > uint64(len(ref.pendingXattr.buf)) {
+			if t.Offset+uint64(count) > uint64(len(ref.pendingXattr.buf)) {
 				return linux.EINVAL
 			}
 
-			n = copy(dataBuf[:t.Count], ref.pendingXattr.buf[t.Offset:])
+			n = copy(dataBuf[:count], ref.pendingXattr.buf[t.Offset:])
 			return nil
 		default:
 			return linux.EINVAL
